@@ -1,23 +1,36 @@
 //! Async pipe reading utilities for Unix.
 
-use std::io;
-use std::os::unix::io::OwnedFd;
+use std::io::{self, Read};
 
-use tokio::net::unix::pipe;
-
-pub(crate) struct AsyncPipeReader(pipe::Receiver);
+/// Reads a pipe to its end without blocking the calling task.
+///
+/// The read itself happens on a blocking thread rather than through the runtime's I/O driver:
+/// the writer may be a builtin or function that blocks a runtime worker thread in `write(2)`
+/// (e.g. the outer command of `$(echo "$(cat big)")`), and while it does so nothing is
+/// guaranteed to poll the driver and deliver the readiness this reader would be waiting for.
+pub(crate) struct AsyncPipeReader {
+    inner: Option<std::io::PipeReader>,
+}
 
 impl AsyncPipeReader {
+    #[allow(clippy::unnecessary_wraps)]
     pub(crate) fn new(reader: std::io::PipeReader) -> io::Result<Self> {
-        Ok(Self(pipe::Receiver::from_file(std::fs::File::from(
-            OwnedFd::from(reader),
-        ))?))
+        Ok(Self {
+            inner: Some(reader),
+        })
     }
 
     pub(crate) async fn read_to_string(&mut self) -> io::Result<String> {
-        use tokio::io::AsyncReadExt;
-        let mut s = String::new();
-        self.0.read_to_string(&mut s).await?;
-        Ok(s)
+        let Some(reader) = self.inner.take() else {
+            return Ok(String::new());
+        };
+
+        tokio::task::spawn_blocking(move || {
+            let mut s = String::new();
+            { reader }.read_to_string(&mut s)?;
+            Ok(s)
+        })
+        .await
+        .map_err(io::Error::other)?
     }
 }
